@@ -74,6 +74,18 @@ CLAIMED['C09'] = dict(
     technique='contract-based deductive verification: clang JSON AST -> Python-subset lowering -> VC generator (loop invariants, BV64 + arrays) -> z3; Lean 4 closure lemma',
     design='3 C09')
 
+CLAIMED['C08'] = dict(
+    text='Proof of the invalidation protocol (first mechanism of C08) for every history: typestate contracts over all ~180 function '
+         'bodies of typegraph.cc, typegraph.h and cfg.cc (clang AST, re-read on every run): on every path every mutation of a '
+         'solver-observable field happens after InvalidateSolver() with no solver created in between; private helpers carry '
+         '`requires invalidated` and every call site establishes it. Independence from query order inside one solver lifetime '
+         '(memo tables, path cache) is NOT decided (functional correctness of the search, see C07).',
+    note='Trusted: engine/ (typestate analysis in contracts/c08.py), clang, the declared set of solver-observable fields (cross-checked '
+         'against the accessors solver.cc uses), Prune\'s guarded operator[], no callbacks from STL/C-API. A bounded native history search '
+         '(live Program vs rebuilt replica at every query) samples the undecided part.',
+    technique='contract-based deductive verification: clang JSON AST -> typestate contracts (requires/ensures invalidated) checked per function over all paths',
+    design='3 C08')
+
 NOT_APPLICABLE = {
     'C01': 'whole abstract interpreter vs CPython execution: no function-level contract expresses over-approximation of execution (DESIGN 4)',
     'C02': 'decided by matcher.py (2000 lines) on live VM values; the inhabitant oracle quantifies over programs, not one call (DESIGN 4)',
